@@ -330,6 +330,67 @@ def _facts_at_block_end(f, gb, v, L):
     return out.get('k', -G.INF)
 
 
+def c01i(db, res, own):
+    """A slot that holds an allocation is not overwritten with a new one: for every store of a fresh allocation into a
+    record field inside a loop there is no path from the store, around the loop, back to the same store along which the
+    slot is neither released / cleared nor moved (its cursor or a guard variable reassigned) nor tested empty."""
+    res.rule('C01.i', 'no loop-carried overwrite of an owning slot: from a store `S = alloc()` inside a loop, every path back to the same store releases or clears S, tests S == NULL, or reassigns a local that S (or the guard of the store) depends on')
+    n = 0
+    for name, f in sorted(db.fn.items()):
+        if not f.blocks:
+            continue
+        lp = C.loops(f)
+        if not lp:
+            continue
+        for b, i, st in f.stmts():
+            if not any(b in body for h, body in lp):
+                continue
+            for x in nodes(st, lambda y: y.get('k') == 'assign' and y['op'] == '='):
+                l = strip(x['l'])
+                if l.get('k') != 'member' or not own.is_alloc_expr(x['r'], f):
+                    continue
+                n += 1
+                L = P.K(x['l'])
+                V = {v['name'] for v in nodes(x['l'], lambda y: y.get('k') == 'var' and y.get('decl') == 'local')}
+                for a, e in P.facts_at(f, b):
+                    # a NULL test of a pointer local that guards the store (`if (cur == NULL) first = alloc(); else cur->next = alloc();`)
+                    cond = f.blocks[e[0]]['stmts'][-1] if f.blocks[e[0]]['stmts'] else None
+                    if cond is not None and a[2] == '0' and a[1] in ('==', '!='):
+                        V |= {v['name'] for v in nodes(cond, lambda y: y.get('k') == 'var' and y.get('decl') == 'local' and '*' in (y.get('t') or '') and y['name'] == a[0])}
+                bad = []
+
+                def visit(bb, ii, s2):
+                    if (bb, ii) == (b, i):
+                        bad.append(s2)
+                        return True
+                    for y in nodes(s2):
+                        if y['k'] == 'assign' and y is not x and (P.K(y['l']) == L or L.startswith(P.K(y['l']) + '->')):
+                            return True                                   # cleared or re-stored elsewhere (that store has its own instance), or the record that holds the slot is replaced
+                        if y['k'] == 'assign' and strip(y['l']).get('k') == 'var' and strip(y['l'])['name'] in V:
+                            return True                                   # the slot (or its guard) moves
+                        if y['k'] == 'decl' and any(v['name'] in V and 'init' in v for v in y['vars']):
+                            return True
+                        if y['k'] == 'call' and (y.get('callee') in FREEISH_ or (y.get('callee') or '').endswith(('_free', '_destroy'))) and any(P.K(a_) == L for a_ in y['args']):
+                            return True
+                    return False
+
+                def edge_ok(bb, j):
+                    c = f.cond_of(bb)
+                    if c:
+                        a = P.canon(c[0])
+                        if a and (a[0] == L or L.startswith(a[0] + '->')) and a[2] == '0' and ((a[1] == '==' and j == 0) or (a[1] == '!=' and j == 1)):
+                            return False                                   # the slot (or the record it lives in) is tested empty on this edge: it does not hold the allocation
+                    return True
+                C.forward(f, (b, i), visit, edge_ok)
+                key = '%s:%s=alloc' % (name, L)
+                res.check(not bad, 'C01.i', key, 'every way back to this store releases, clears, tests or moves the slot (depends on %s)' % (sorted(V) or 'no local'),
+                          'the loop can come back to this store with %s still holding the previous allocation and nothing that it depends on (%s) changed: the previous object is overwritten and never released' % (L, sorted(V) or 'no local'), x['loc'])
+    res.floor('C01.i', 'allocation stores into record fields inside loops', n, 6)
+
+
+FREEISH_ = ('free', 'bstr_free', 'htp_gzip_decompressor_destroy', 'htp_table_destroy', 'htp_list_array_destroy')
+
+
 def run(repo='/repo', tier='quick'):
     res = Result('C01')
     db = load(repo)
@@ -342,6 +403,7 @@ def run(repo='/repo', tier='quick'):
     c01f(db, res, nl)
     c01g(db, res)
     c01h(db, res)
+    c01i(db, res, own)
     try:
         from . import c01b
         c01b.run(db, res)
